@@ -1,50 +1,45 @@
 (* C14 — read-only and copy-making operations leave a template unchanged.
-   Statements only; every proof is `exact <lemma of MutationProofs>` or a computed witness. *)
+   Statements only; every proof is `exact <lemma of MutationProofs>` or a computed witness.
+   `mstep` / `mrun` = the code as it is: mstep_gen fixed_state_carry fixed_shared_edge_dicts = mstep_gen true false. *)
 From Coq Require Import List String ZArith QArith Qcanon Bool Arith.
 From PV Require Import Heap Values ValuesProofs Mutation MutationProofs.
 Import ListNotations.
 Open Scope nat_scope.
 
-(* Frame, one operation: after ANY listed operation (getters, to_yaml, deepcopy, update_template without in_place, OperatorTemplate.update_template,
-   get_run_func / get_jacobian_func / run with in_place=False) called on the template r, EVERY template c (of any depth d')
-   that had a denotation before — r itself, its sub-circuits, templates sharing nodes or operators with it — has the
-   same denotation (equations, defaults, per-node values, connectivity). *)
-Theorem C14_frame_each_operation : forall fixed d r s o d' c t,
-  abs d' (fst s) c = Some t -> abs d' (fst (fst (mstep_gen fixed d r s o))) c = Some t.
+(* Frame, one operation: after ANY listed operation (getters, to_yaml, deepcopy, update_template without in_place,
+   OperatorTemplate.update_template, loading a derived template, get_run_func / get_jacobian_func / run with in_place=False)
+   called on the template r, EVERY template c (of any depth d') that had a denotation before — r itself, its sub-circuits,
+   templates sharing nodes or operators with it — has the same denotation (equations, defaults, per-node values,
+   connectivity).  The only exception is the composite derive-and-edit operation (finding C14-shared-edge-dicts), unless
+   the edge dictionaries are unshared (fe = true, the proposed repair). *)
+Theorem C14_frame_each_operation : forall fx fe d r s o, fe = true \/ is_derive_edit o = false ->
+  forall d' c t, abs d' (fst s) c = Some t -> abs d' (fst (fst (mstep_gen fx fe d r s o))) c = Some t.
 Proof. exact frame_step. Qed.
 Print Assumptions C14_frame_each_operation.
 
 (* ... and after any finite sequence of them *)
-Theorem C14_frame_any_sequence : forall fixed d r ops s d' c t,
-  abs d' (fst s) c = Some t -> abs d' (fst (fst (mrun_gen fixed d r s ops))) c = Some t.
+Theorem C14_frame_any_sequence : forall fx fe d r ops s, fe = true \/ no_derive_edit ops = true ->
+  forall d' c t, abs d' (fst s) c = Some t -> abs d' (fst (fst (mrun_gen fx fe d r s ops))) c = Some t.
 Proof. exact frame_sequence. Qed.
 Print Assumptions C14_frame_any_sequence.
 
 (* Full statement: every operation of every sequence returns what the unchanged denotation says: reads read the tree,
    every compile starts from the declared initial values, every run succeeds from the declared initial values. *)
-Definition C14_full_statement (fixed : bool) : Prop := forall d r t ops h, abs d h r = Some t ->
-  snd (mrun_gen fixed d r (h, book0) ops) = map (mstepS d t) ops.
+Definition C14_full_statement (fixed fixed_e : bool) : Prop := forall d r t ops h, abs d h r = Some t ->
+  snd (mrun_gen fixed fixed_e d r (h, book0) ops) = map (mstepS d t) ops.
 
-(* `fixed` = false: the code as it is (mrun = mrun_gen false).  `fixed` = true: the mechanism of the proposed repair
-   /verif/fixes/proposed_fix_C14_state_carry.diff (bookkeeping read from / written to the deep copy).  With the repair the
-   full statement holds for every sequence; this theorem becomes THE claim once Mutation.fixed_state_carry is switched. *)
-Theorem C14_full_when_fixed : C14_full_statement true.
-Proof. exact outputs_refine_fixed. Qed.
-Print Assumptions C14_full_when_fixed.
-
-(* As the code is, it holds for sequences in which no call reads bookkeeping written onto `self` by an earlier call
-   (no compile after a run, no run after a compile, all compiles with one vectorize setting). *)
-Theorem C14_partial : forall d r t ops h, abs d h r = Some t -> no_state_carry ops = true ->
+(* Headline (the code as it is, after fix D74): the full statement for every sequence of the listed operations — any
+   interleaving of compiles and runs with both vectorize settings included; the former guard no_state_carry is gone.
+   The only remaining hypothesis excludes the derive-and-edit operation of finding C14-shared-edge-dicts. *)
+Theorem C14_full : forall d r t ops h, abs d h r = Some t -> no_derive_edit ops = true ->
   snd (mrun d r (h, book0) ops) = map (mstepS d t) ops.
-Proof. exact outputs_refine_guard. Qed.
-Print Assumptions C14_partial.
+Proof. exact outputs_refine_now. Qed.
+Print Assumptions C14_full.
 
-(* corollary named in the property: run(in_place=False) any number of times, interleaved with any reads and copies,
-   returns the same result every time *)
-Theorem C14_repeated_runs_identical : forall d r t ops h, abs d h r = Some t -> only_runs_and_reads ops = true ->
-  snd (mrun d r (h, book0) ops) = map (mstepS d t) ops.
-Proof. exact repeated_runs_identical. Qed.
-Print Assumptions C14_repeated_runs_identical.
+(* with the proposed repair of the shared edge dictionaries: no hypothesis at all *)
+Theorem C14_full_when_edge_dicts_unshared : C14_full_statement true true.
+Proof. exact outputs_refine_all. Qed.
+Print Assumptions C14_full_when_edge_dicts_unshared.
 
 Theorem C14_deepcopy_only_appends : forall d h m c h2 m2 c', copy_circ d h m c = Some (h2, m2, c') -> extends h h2.
 Proof. exact copy_circ_extends. Qed.
@@ -58,30 +53,38 @@ Definition w_heap : heap :=
    OCirc [("A"%string, 1); ("B"%string, 1); ("C"%string, 2)] [("A/op/x"%string, "B/op/u"%string, [("weight"%string, Sc (mkq 2 1))])];
    OCirc [("c1"%string, 3)] []].
 
-(* run(in_place=False) then get_run_func(in_place=False): the compile starts from the final state of the run (silent) *)
-Theorem C14_state_carry_refuted : ~ C14_full_statement false.
+(* finding C14-shared-edge-dicts: d = c.update_template(nodes={..}) (no edges, not in place); d.update_var(edge_vars=[(A->B, 64)])
+   changes the weight of A->B on the BASE template c as well: get_edge on c returns 64 (specification: 2) *)
+Definition sed_ops : list mop :=
+  [MDeriveEdit "A/op/x" "B/op/u" [("weight"%string, Sc (mkq 64 1))]; MRead (QEdge "A/op/x" "B/op/u")].
+Theorem C14_shared_edge_dicts_refuted : ~ C14_full_statement true false.
 Proof.
   intros H. destruct (abs 0 w_heap 3) as [t|] eqn:E; [|vm_compute in E; discriminate].
-  specialize (H 0 3 t [MRun false; MCompile false false] w_heap E). vm_compute in H. discriminate.
+  specialize (H 0 3 t sed_ops w_heap E). vm_compute in E. injection E as <-. vm_compute in H. discriminate.
 Qed.
-Print Assumptions C14_state_carry_refuted.
+Print Assumptions C14_shared_edge_dicts_refuted.
 
-(* get_run_func(in_place=False) then run(in_place=False): TypeError (loud);
-   get_run_func(vectorize=True) then get_run_func(vectorize=False): ValueError in np.reshape (loud) *)
-Example C14_run_after_compile_witness :
-  snd (mrun 0 3 (w_heap, book0) [MCompile false false; MRun false]) = [RCompile YDeclared; RRun false] /\
-  snd (mrun 0 3 (w_heap, book0) [MCompile false true; MCompile false false]) = [RCompile YDeclared; RCompile YErr].
-Proof. split; vm_compute; reflexivity. Qed.
-Print Assumptions C14_run_after_compile_witness.
+(* regression of the former finding C14-state-carry (repaired by D74).  Now: run then get_run_func starts from the declared
+   initial values, get_run_func then run succeeds, the vectorize setting may change.  Before the fix (fixed = false): the
+   carried final state, TypeError, ValueError. *)
+Example C14_state_carry_regression :
+  snd (mrun 0 3 (w_heap, book0) [MRun false; MCompile false false; MRun false; MCompile false true; MCompile false false]) =
+    [RRun true; RCompile YDeclared; RRun true; RCompile YDeclared; RCompile YDeclared] /\
+  snd (mrun_gen false false 0 3 (w_heap, book0) [MRun false; MCompile false false]) = [RRun true; RCompile YCarried] /\
+  snd (mrun_gen false false 0 3 (w_heap, book0) [MCompile false false; MRun false]) = [RCompile YDeclared; RRun false] /\
+  snd (mrun_gen false false 0 3 (w_heap, book0) [MCompile false true; MCompile false false]) = [RCompile YDeclared; RCompile YErr].
+Proof. repeat split; vm_compute; reflexivity. Qed.
+Print Assumptions C14_state_carry_regression.
 
 (* non-vacuity: a hierarchical template (root 4 -> c1 = circuit 3) with a shared NodeTemplate and a per-node override;
-   getters, deepcopy, update_template, to_yaml and two runs: the guard holds, all templates keep their denotation,
-   the store did grow (copies were made) *)
+   getters, deepcopy, a derived operator, update_template, to_yaml, a run, a compile and another run: the guard holds,
+   all templates keep their denotation, the store did grow (copies were made) *)
 Definition nv_ops : list mop :=
-  [MRead (QNodes ["all"%string; "all"%string]); MRead QEdges; MDeepcopy; MNewObject (OOp "op" ["d/dt * x = k + u"%string] []); MUpdateTemplate [("c1/C/op/x"%string, "c1/A/op/u"%string, [])];
-   MToYaml; MRun false; MRead (QNodeTemplate ["c1"%string; "C"%string]); MRun true; MObserve].
+  [MRead (QNodes ["all"%string; "all"%string]); MRead QEdges; MDeepcopy; MNewObject (OOp "op" ["d/dt * x = k + u"%string] []);
+   MUpdateTemplate [("c1/C/op/x"%string, "c1/A/op/u"%string, [])];
+   MToYaml; MRun false; MRead (QNodeTemplate ["c1"%string; "C"%string]); MCompile false true; MRun true; MObserve].
 Example C14_nonvacuous :
-  no_state_carry nv_ops = true /\
+  no_derive_edit nv_ops = true /\
   (exists t, abs 1 w_heap 4 = Some t /\ abs 1 (fst (fst (mrun 1 4 (w_heap, book0) nv_ops))) 4 = Some t) /\
   List.length w_heap < List.length (fst (fst (mrun 1 4 (w_heap, book0) nv_ops))).
 Proof. split; [vm_compute; reflexivity|]. split; [eexists; split; vm_compute; reflexivity|apply Nat.ltb_lt; vm_compute; reflexivity]. Qed.
